@@ -35,7 +35,7 @@ int main(int argc,char **argv){
   nspos=ftell(fo); fwrite(&ns,4,1,fo);
   while(getline(&line,&cap,cf)>0){
     long idx,rate,mx,nom,mn,n; int ch; char mode[8],sig[32],ctl[128]; double q; int ret; long done=0; int eos=0,i;
-    vorbis_info vi; vorbis_comment vc; vorbis_dsp_state vd; vorbis_block vbs[4]; ogg_packet op; int nblocks=1,reinit=0,ncomments=1,curb=0,sincere=0;
+    vorbis_info vi; vorbis_comment vc; vorbis_dsp_state vd; vorbis_block vbs[4]; ogg_packet op; int nblocks=1,reinit=0,ncomments=1,curb=0,sincere=0; const char *clist=NULL; char clbuf[16];
     if(sscanf(line,"%ld %ld %d %7s %lf %ld %ld %ld %31s %ld %127s",&idx,&rate,&ch,mode,&q,&mx,&nom,&mn,sig,&n,ctl)!=11)continue;
     npk=0; lcg=12345u+(unsigned)idx*7u;
     vorbis_info_init(&vi);
@@ -64,6 +64,7 @@ int main(int argc,char **argv){
         }
         else if(!strcmp(t,"nocomment"))ncomments=0;
         else if(!strncmp(t,"comments=",9))ncomments=atoi(t+9);
+        else if(!strncmp(t,"cl=",3)){ snprintf(clbuf,sizeof(clbuf),"%s",t+3); clist=clbuf; ncomments=0; }
         else if(!strncmp(t,"blocks=",7)){ nblocks=atoi(t+7); if(nblocks<1)nblocks=1; if(nblocks>4)nblocks=4; }
         else if(!strncmp(t,"reinit=",7))reinit=atoi(t+7);
       }
@@ -71,6 +72,15 @@ int main(int argc,char **argv){
     if(!ret)ret=vorbis_encode_setup_init(&vi);
     if(ret){ int z=0; fprintf(fi,"%ld %d 0 0 0 0 0 0 0 0\n",idx,ret); fwrite(&z,4,1,fo); ns++; vorbis_info_clear(&vi); continue; }
     vorbis_comment_init(&vc); { int k; char tg[32]; for(k=0;k<ncomments;k++){ snprintf(tg,sizeof(tg),"T%d",k); vorbis_comment_add_tag(&vc,tg,k%3?"x":""); } }
+    /* comment-list shapes (one digit per entry): 0 empty string, 1 "A=b", 2 "=", 3 300-byte value, 4 entry with embedded NUL (explicit length), 5 NULL pointer entry, 6 tag without '=' */
+    if(clist){ const char *c; for(c=clist;*c;c++){ int i=vc.comments; switch(*c){
+      case '0': vorbis_comment_add(&vc,""); break;
+      case '1': vorbis_comment_add(&vc,"A=b"); break;
+      case '2': vorbis_comment_add(&vc,"="); break;
+      case '3': { char big[312]; memset(big,'v',sizeof(big)); memcpy(big,"LONG=",5); big[305]=0; vorbis_comment_add(&vc,big); } break;
+      case '4': vorbis_comment_add(&vc,"N=abcdef"); vc.user_comments[i][4]=0; break;
+      case '5': vorbis_comment_add(&vc,"x"); free(vc.user_comments[i]); vc.user_comments[i]=NULL; vc.comment_lengths[i]=0; break;
+      default: vorbis_comment_add(&vc,"plain"); break; } } }
     vorbis_analysis_init(&vd,&vi); { int k; for(k=0;k<nblocks;k++)vorbis_block_init(&vd,&vbs[k]); }
     { ogg_packet h1,h2,h3; vorbis_analysis_headerout(&vd,&vc,&h1,&h2,&h3); addpk(&h1,1); addpk(&h2,0); addpk(&h3,0); }
     while(!eos){
